@@ -84,16 +84,20 @@ public:
                                          1.0 ) );
       auto bNt = GetMC().ComputeBoundsAndType(con.GetBody());
       double cmpEps = GetMC().ComparisonEps( bNt.get_result_type() );
+      double rhsLE = con.rhs() - cmpEps;
+      double rhsGE = con.rhs() + cmpEps;
+      if (var::INTEGER == bNt.get_result_type()) {
+        rhsLE = std::ceil(con.rhs()) - 1.0;   // the rhs can be fractional
+        rhsGE = std::floor(con.rhs()) + 1.0;
+      }
       {
         GetMC().AddConstraint(IndicatorConstraint< AlgCon<-1> >(
                                 newvars[0], 1,
-                              { con.GetBody(),
-                                con.rhs() - cmpEps }));
+                              { con.GetBody(), rhsLE }));
       }
       GetMC().AddConstraint(IndicatorConstraint< AlgCon<1> >(
                               newvars[1], 1,
-                            { con.GetBody(),
-                              con.rhs() + cmpEps }));
+                            { con.GetBody(), rhsGE }));
     } // else, skip
   }
 
